@@ -1,56 +1,4 @@
 // ---- prelude/sem_spec.rs : what removing / splicing nodes means for the denoted function (tree_fn) and for evaluation paths ----
-// the evaluation of x below idx passes node t
-pub open spec fn reaches<const K: usize>(a: AArena<K>, h: Map<usize, nat>, idx: usize, x: V, t: usize) -> bool
-    decreases h[idx]
-{
-    if idx == t { true }
-    else {
-        let nd = a[idx];
-        if nd.isleaf { false }
-        else {
-            let l = decide(&nd.value.aff, x);
-            0 <= l < K && nd.children[l].is_some() && h[nd.children[l].unwrap()] < h[idx] && reaches(a, h, nd.children[l].unwrap(), x, t)
-        }
-    }
-}
-pub proof fn lemma_reaches_rank_indep<const K: usize>(a: AArena<K>, h0: Map<usize, nat>, h1: Map<usize, nat>, idx: usize, x: V, t: usize)
-    requires ranked_down(a, h0), ranked_down(a, h1), kids_ok(a), a.dom().contains(idx)
-    ensures reaches(a, h1, idx, x, t) == reaches(a, h0, idx, x, t)
-    decreases h0[idx]
-{
-    let nd = a[idx];
-    if idx != t && !nd.isleaf {
-        let l = decide(&nd.value.aff, x);
-        if 0 <= l < K && nd.children[l].is_some() {
-            assert(h0[nd.children[l].unwrap()] < h0[idx]);
-            assert(h1[nd.children[l].unwrap()] < h1[idx]);
-            lemma_reaches_rank_indep(a, h0, h1, nd.children[l].unwrap(), x, t);
-        }
-    }
-}
-// a node that is passed lies at or below the start
-pub proof fn lemma_reaches_height<const K: usize>(a: AArena<K>, h: Map<usize, nat>, idx: usize, x: V, t: usize)
-    requires reaches(a, h, idx, x, t)
-    ensures h[t] <= h[idx]
-    decreases h[idx]
-{
-    if idx != t {
-        let c = a[idx].children[decide(&a[idx].value.aff, x)].unwrap();
-        lemma_reaches_height(a, h, c, x, t);
-    }
-}
-// passing t and then, from t's selected child on, passing u
-pub proof fn lemma_reaches_step<const K: usize>(a: AArena<K>, h: Map<usize, nat>, idx: usize, x: V, t: usize, u: usize)
-    requires reaches(a, h, idx, x, t), reaches(a, h, t, x, u)
-    ensures reaches(a, h, idx, x, u)
-    decreases h[idx]
-{
-    if idx != t && idx != u {
-        let c = a[idx].children[decide(&a[idx].value.aff, x)].unwrap();
-        lemma_reaches_step(a, h, c, x, t, u);
-    }
-}
-
 // ---- removal of the children of p at the slots in ls (a1 -> am), p keeps at least one child ----
 pub proof fn lemma_rm_sem<const K: usize>(a1: AArena<K>, am: AArena<K>, h: Map<usize, nat>, p: usize, ls: ISet<int>, idx: usize, x: V)
     requires removed_set(a1, am, p, ls), kids_ok(a1), leaf_ok(a1), kids_ok(am), ranked_down(a1, h), am.dom().contains(idx),
